@@ -549,13 +549,49 @@ class C07(WorkerProp):
     module = "Tftp.Props.C07"
     sender_clauses = ("slice", "termination")
     receiver_clauses = ("termination",)
-    rule = ("sender and receiver scripts with silence / ERROR at every kind of point, partial-window ACK patterns at end of file, OACK handshake replies; "
+    rule = ("sender and receiver scripts with silence / ERROR (every code) at every kind of point, partial-window ACK patterns at end of file, OACK handshake replies; "
+            "through the in-process server in real time: downloads aborted by ERROR of every code in both port modes must fall silent; "
             "non-trivial = distinct case with at least one receive attempt consumed")
+
+    parallel = 8
+
+    def chunk_of(self, line):
+        t = line.split(" ")
+        return (1 + sum(bytes.fromhex(t[1])) % 7) if t[0] == "errstop" else 0
 
     def generate(self, tier, rng):
         n = self.n_quick if tier == "quick" else self.n_thorough
-        return (directed_sender() + directed_receiver() + [gen_sender(rng, tier) for _ in range(n)] +
-                [gen_receiver(rng, tier) for _ in range(n // 2)])
+        L = (directed_sender() + directed_receiver() + [gen_sender(rng, tier) for _ in range(n)] +
+             [gen_receiver(rng, tier) for _ in range(n // 2)])
+        # through the server, in real time: a download aborted by the client's ERROR (every code, both port modes - in single-port mode the
+        # ERROR reaches the worker through the listener) must fall silent at once
+        from .p_server import rq
+        k = 0
+        for flags in ["-", "s"]:
+            for code in (range(8) if tier == "thorough" else [0, 5, rng.choice([1, 2, 3, 4, 6, 7])]):
+                root = (self.sandbox + "/k%d" % (k % 7)).encode().hex()
+                k += 1
+                L.append("errstop %s %s srv/f=gen:40:3 %s %d" % (root, flags, rq("rrq", b"f", (("timeout", 1), ("blksize", 8), ("windowsize", 2))).hex(), code))
+        return L
+
+    def oracle(self, line, impl):
+        if line.startswith("errstop "):
+            if impl != "first=data after=0":
+                return ("after the client's ERROR %s the server still sent datagrams (%s)" % (line.split(" ")[5], impl), "server-goes-on-after-error")
+            return None
+        return WorkerProp.oracle(self, line, impl)
+
+    def nontrivial(self, line, impl):
+        return line.startswith("errstop ") or WorkerProp.nontrivial(self, line, impl)
+
+    def classify(self, line, impl, res):
+        if line.startswith("errstop "):
+            res.count("server-level-abort:flags=%s" % line.split(" ")[2])
+        else:
+            WorkerProp.classify(self, line, impl, res)
+
+    def shrink(self, line):
+        return [] if line.startswith("errstop ") else WorkerProp.shrink(self, line)
 
 
 class C08(WorkerProp):
